@@ -49,7 +49,10 @@ Judge(e) ==
                      \/ (c.ctx = "lui" /\ ~d.neg /\ (d.mag[1] >= 16))
       must_accept == d.ok /\ InInt32(d) /\ (c.ctx = "lui" => (~d.neg /\ d.mag[1] < 16))
                      /\ (c.ctx = "csr" => (~d.neg /\ d.mag[1] = 0 /\ d.mag[2] < 4096))
-      judged == ~(c.ctx = "lui" /\ d.ok /\ d.neg) /\ ~(c.ctx = "csr" /\ ~must_accept)
+      \* a CSR number beyond the 12-bit field may be accepted or rejected, but it is never read as another number
+      \* (values that do not fit the trace's integers - negative or >= 2^31 - are left alone)
+      judged == ~(c.ctx = "lui" /\ d.ok /\ d.neg)
+                /\ ~(c.ctx = "csr" /\ ~must_accept /\ ~(d.ok /\ ~d.neg /\ d.mag[1] < 32768))
       expect == IF c.ctx = "lui" THEN SllW(WordOf(d), 12) ELSE WordOf(d)
   IN
   IF ~judged THEN <<>>
